@@ -386,7 +386,7 @@ func init() {
 			"is stepped with the same vote records and evidence and compared after every commit: who is jailed (never with fewer than the maximum misses in the last window; always when the maximum is reached inside one window from activation), jail time, growth of the slashed totals exactly equal to one slash per offence, tombstoned validators never regain status, power or membership, jailed validators are released only by a lock after the jail time with all thresholds met. " +
 			"Non-trivial = every committed block; distinct = (jails, evidence items, absentees in the block) and evidence age classes.",
 		Assume: []string{"'active' is read from the chain's own status field (its correctness is C13's subject)", "the proposing validator is never absent"},
-		Cases:  func(tier string) int { return map[string]int{"quick": 32, "thorough": 300}[tier] },
+		Cases:  func(tier string) int { return map[string]int{"quick": 48, "thorough": 300}[tier] },
 		Run:    func(c *vc.Ctx, i int) { c14History(c, i) },
 	})
 }
